@@ -27,6 +27,10 @@ class Facts:
         self.sources = r['sources']
         self.adts = {a['path']: a for a in r['adts']}
         self.consts = {c['path']: c for c in r['consts']}
+        # crate-private helper structs that only group state of another struct (no wire layout of their own)
+        used_as_field = {fd['ty'].replace("'_", '') for a in r['adts'] if a.get('kind') == 'Struct' for v in a['variants'] for fd in v['fields'] if fd.get('vis') == 'priv'}
+        self.transparent = {a['path'] for a in r['adts'] if a.get('kind') == 'Struct' and a.get('vis') == 'priv' and not a.get('generic')
+                            and not a.get('repr_c') and not a.get('repr_packed') and a['path'] in used_as_field}
         self.bodies = {}
         for b in r['bodies']:
             self.bodies[b['def']] = b
@@ -69,6 +73,15 @@ class Facts:
         for (t, s), dd in self.trait_impls.items():
             if t == trait and norm_ty(s) == n and name in dd:
                 return dd[name]
+        # impls over a const / type parameter (`impl<const N: usize> Tr for [u8; N]`): the parameter matches anything
+        for (t, s), dd in self.trait_impls.items():
+            if t == trait and name in dd and re.search(r'\b[A-Z]\b', norm_ty(s)):
+                pat = re.sub(r'\\b?([A-Z])\\b?', '', '')  # (placeholder, see below)
+                pat = '^' + re.sub(r'(?<![\w:])[A-Z](?![\w:])', '.+', re.escape(norm_ty(s)).replace('\\ ', ' ')) + '$'
+                try:
+                    if re.match(pat, n): return dd[name]
+                except re.error:
+                    pass
         return None
 
     def verify_sources(self, root):
@@ -90,7 +103,8 @@ def canonicalise_roles(raw):
     if _sp not in sys.path: sys.path.insert(0, _sp)
     if os.path.dirname(_sp) not in sys.path: sys.path.insert(0, os.path.dirname(_sp))
     from spec.roles import ROLES
-    ren = {}
+    ren = {}; nested = {}
+    by_path = {a['path']: a for a in raw['adts']}
     from spec.roles import vector_roles
     VR = vector_roles()
     for a in raw['adts']:
@@ -102,10 +116,23 @@ def canonicalise_roles(raw):
             ok_ty = (lambda ty: tys(ty)) if callable(tys) else (lambda ty: ty in tys)
             cands = [fd for fd in fields if fd.get('vis') == 'priv' and ok_ty(fd['ty'].replace("'_", ''))]
             if len(cands) == 1 and cands[0]['name'] != canon: m[cands[0]['name']] = canon
+            if not cands:
+                # the state may be grouped into a crate-private helper struct held in a private field: one level down
+                hits = []
+                for fd in fields:
+                    inner = by_path.get(fd['ty'].replace("'_", ''))
+                    if fd.get('vis') != 'priv' or not inner or inner.get('vis') != 'priv' or inner.get('kind') != 'Struct' or len(inner['variants']) != 1: continue
+                    hits += [(inner, x) for x in inner['variants'][0]['fields'] if ok_ty(x['ty'].replace("'_", ''))]
+                if len(hits) == 1 and hits[0][1]['name'] != canon:
+                    inner, x = hits[0]
+                    if all(y['name'] != canon for y in inner['variants'][0]['fields']):
+                        nested.setdefault(inner['path'], {})[x['name']] = canon
         # a rename must not collide with another field that keeps its name
         keep = {fd['name'] for fd in fields if fd['name'] not in m}
         if not m or any(c in keep for c in m.values()) or len(set(m.values())) != len(m): continue
         ren[a['path']] = m
+    for k, m in nested.items():
+        if k not in ren: ren[k] = m
     apply_field_renames(raw, ren)
     return ren
 
